@@ -56,9 +56,24 @@ class Integ:
         def f(M, st, a):
             g = M.fresh_int("setup_" + nm)
             self.setup_flags.append((nm, g))
+            if nm == "CVodeInit":
+                self._snapshot(st)
             return st, g
 
         return f
+
+    # CVODE keeps its own copy of the state: CVodeInit / CVodeReInit copy y0 from the vector *when they are called*,
+    # CVode advances that copy and writes it to the vector.  What the caller stores in the array between a
+    # re-initialisation and the next CVode call is not seen by the integrator.
+    def _internal(self, st):
+        if st.load("integ_y", 0) is None:  # (states are overlays: look through the parents)
+            st.size["integ_y"] = 8 * self.neq
+            st.mem["integ_y"] = {8 * i: z3.Real(f"integ_internal_{i}") for i in range(self.neq)}
+
+    def _snapshot(self, st):
+        self._internal(st)
+        for i in range(self.neq):
+            st.store("integ_y", 8 * i, R(st.load("ab", 8 * i)))
 
     def set_array(self, M, st, a):
         st.store("integ", 8, a[0])
@@ -111,8 +126,11 @@ class Integ:
             # monolithic sanity run: flags range over [-8, 1] (every class the ladder
             # distinguishes); the unbounded range is covered by the per-level induction
             self.assumes.append(z3.And(f >= -8, f <= 1))
+        self._internal(st)
         for i in range(self.neq):
-            st.store("ab", 8 * i, R(st.load("ab", 8 * i)) + (tr - tcur))
+            v = R(st.load("integ_y", 8 * i)) + (tr - tcur)
+            st.store("integ_y", 8 * i, v)
+            st.store("ab", 8 * i, v)
         st.store("integ", 0, tr)
         if M.check(st, tret, 8, "CVode tret"):
             st.store(tret.obj, tret.off, tr)
@@ -132,6 +150,7 @@ class Integ:
             g = M.fresh_int("reinit")
         self.reinit.append(g)
         st.store("integ", 0, R(a[1]))
+        self._snapshot(st)
         return st, g
 
     def axioms(self):
@@ -245,6 +264,8 @@ def check_level_induction(chk, project, tdir, neq, fields):
         st.size["ab"] = 8 * neq
         st.mem["ab"] = {8 * i: ab_pre[i] for i in range(neq)}
         st.size["integ"] = 32
+        st.size["integ_y"] = 8 * neq
+        st.mem["integ_y"] = {8 * i_: z3.Real(f"integ_internal_{i_}") for i_ in range(neq)}
         tcur = z3.Real("tcur")
         st.mem["integ"] = {0: tcur, 8: Ptr("ab", 0), 16: 0, 24: 0}
         # run the pre-loop code with a concrete negative flag to define the loop-invariant SSA values
@@ -438,6 +459,8 @@ def run_solve(project, tdir, neq, fields, fault_levels, stub_handle=False, index
     fo = setup_this(M, st, fields, neq, [z3.Real(f"stale_init_{i}") for i in range(neq)])
     st.size["ab"] = 8 * neq
     st.mem["ab"] = {8 * i: y0[i] for i in range(neq)}
+    st.size["integ_y"] = 8 * neq
+    st.mem["integ_y"] = {8 * i_: z3.Real(f"integ_internal_{i_}") for i_ in range(neq)}
     st.size["integ"] = 32
     st.mem["integ"] = {0: z3.RealVal(0), 8: Ptr("ab", 0), 16: 0, 24: 0}
     ud, _ = make_udata_plain(M, project, tdir, st)
@@ -905,16 +928,17 @@ int SUNLinSolFree(SUNLinearSolver) { return 0; } int SUNLinSolSetup(SUNLinearSol
 int SUNLinSolSolve(SUNLinearSolver, SUNMatrix, N_Vector, N_Vector, realtype) { return 0; }
 void *CVodeCreate(int, SUNContext) { static int x; return &x; } void CVodeFree(void **) {}
 int CVodeSetErrFile(void *, FILE *) { return 0; } int CVodeSetMaxNumSteps(void *, long) { return 0; }
-int CVodeInit(void *, CVRhsFn, realtype t0, N_Vector) { T_CUR = t0; return 0; }
+static double YI[256];  // the integrator's own copy of the state, taken when CVodeInit / CVodeReInit are called
+int CVodeInit(void *, CVRhsFn, realtype t0, N_Vector) { T_CUR = t0; for (long i = 0; i < NEQ_; i++) YI[i] = Y[i]; return 0; }
 int CVodeSStolerances(void *, realtype, realtype) { return 0; }
 int CVodeSetLinearSolver(void *, SUNLinearSolver, SUNMatrix) { return 0; } int CVodeSetJacFn(void *, CVLsJacFn) { return 0; }
 int CVodeSetUserData(void *, void *) { return 0; }
-int CVodeReInit(void *, realtype t0, N_Vector) { T_CUR = t0; return REPOS < NRE ? REFLAGS[REPOS++] : 0; }
+int CVodeReInit(void *, realtype t0, N_Vector) { T_CUR = t0; for (long i = 0; i < NEQ_; i++) YI[i] = Y[i]; return REPOS < NRE ? REFLAGS[REPOS++] : 0; }
 // scripted: call j returns FLAGS[j]; on failure it stops at t_cur + FRACS[j]*(tout-t_cur); y(t) = y0 + t
 int CVode(void *, realtype tout, N_Vector, realtype *tret, int) {
     int f = POS < NSCRIPT ? FLAGS[POS] : 0; double fr = POS < NSCRIPT ? FRACS[POS] : 1.0; POS++;
     double t = f >= 0 ? tout : T_CUR + fr * (tout - T_CUR);
-    for (long i = 0; i < NEQ_; i++) Y[i] += t - T_CUR;
+    for (long i = 0; i < NEQ_; i++) { YI[i] += t - T_CUR; Y[i] = YI[i]; }
     T_CUR = t; *tret = t; return f;
 }
 int CVodeGetNumSteps(void*, long*){return 0;} int CVodeGetNumRhsEvals(void*, long*){return 0;} int CVodeGetNumLinSolvSetups(void*, long*){return 0;}
